@@ -8,7 +8,8 @@ Import ListNotations.
 Require Import Fggs.Model.Semiring Fggs.Model.SCC Fggs.Model.SumProduct Fggs.Model.SumProductCheck.
 Require Import Fggs.Proofs.BigSum Fggs.Proofs.SP_trees Fggs.Proofs.SP_nonrec Fggs.Proofs.SP_code
                Fggs.Proofs.SP_rename Fggs.Proofs.SP_spe Fggs.Proofs.SP_driver Fggs.Proofs.SP_main
-               Fggs.Proofs.SP_corollaries Fggs.Proofs.SP_examples Fggs.Proofs.SP_check_sound.
+               Fggs.Proofs.SP_corollaries Fggs.Proofs.SP_examples Fggs.Proofs.SP_check_sound
+               Fggs.Proofs.SP_scc_glue.
 
 (** * 0. The oracle of the correspondence check is sound *)
 (** verdict 0 of [sp_check] (any carrier, any tolerance predicate [within]): the grammar is
@@ -210,6 +211,33 @@ Theorem C01_nonrecursive_order_singletons :
   forall G order, nonrecursive_order G order = true -> order = map (fun x => [x]) (concat order).
 Proof. exact nonrecursive_order_singletons. Qed.
 Print Assumptions C01_nonrecursive_order_singletons.
+
+(** composition with C19: an order accepted by the verified oracle [scc_ok] on the nonterminal graph
+    whose components are single non-looping nonterminals is dependency-respecting and complete;
+    so the end-to-end theorem needs no premise on the order beyond the two boolean checks
+    (and none at all once [scc g = Some cs -> scc_ok g cs = true] is proved in C19) *)
+Theorem C01_scc_order_ok :
+  forall G order, scc_ok (nt_graph G) order = true -> nonrecursive_order G order = true ->
+    dep_ordered G [] (concat order) /\ NoDup (concat order)
+    /\ (forall X, is_term G X = false -> In X (concat order)).
+Proof. exact scc_order_dep_ordered. Qed.
+Print Assumptions C01_scc_order_ok.
+
+Theorem C01_sum_products_eq_spec_scc :
+  forall R (o : sr_ops R), sr_ring o ->
+  forall G w order,
+    wf_grammar G = true -> (forall l, tget w l <> None -> is_term G l = true) ->
+    scc_ok (nt_graph G) order = true -> nonrecursive_order G order = true ->
+  forall X xi, is_term G X = false -> In xi (all_assts (lshape G X)) ->
+    let N := length (nonterminals G) in
+    let v := env_of o (sum_products_nonrec o G w order) X xi in
+    v = env_of o (Ztab o G (env_of o w) N) X xi
+    /\ v = Zk o G (env_of o w) N X xi
+    /\ v = sumS o (enum_trees G N X xi) (weight o G (env_of o w))
+    /\ NoDup (enum_trees G N X xi)
+    /\ (forall t, In t (enum_trees G N X xi) <-> wf_dtree G X xi t).
+Proof. exact (fun R o H => @sum_products_scc_correct R o H). Qed.
+Print Assumptions C01_sum_products_eq_spec_scc.
 
 (** * 4(c). The shapes the property lists *)
 Theorem C01_isolated_internal_node :
